@@ -91,6 +91,17 @@ func Run(ctx context.Context, o Options) (*Result, error) {
 		}
 	}
 	cfgPath := filepath.Join(dir, o.Module+".cfg")
+	// VERIF_KEEP_CFG=<dir>: keep a copy of every configuration of a model-checking module
+	// (the committed spec/cfg/ files are produced this way, so that the specifications can be
+	// checked with plain `tlc` without the harness)
+	if keep := os.Getenv("VERIF_KEEP_CFG"); keep != "" && strings.HasSuffix(o.Module, "MC") {
+		os.MkdirAll(keep, 0o755)
+		sum := 0
+		for _, c := range []byte(o.Cfg) {
+			sum = (sum*31 + int(c)) % 100000
+		}
+		os.WriteFile(filepath.Join(keep, fmt.Sprintf("%s.%05d.cfg", o.Module, sum)), []byte(o.Cfg), 0o644)
+	}
 	if err := os.WriteFile(cfgPath, []byte(o.Cfg), 0o644); err != nil {
 		return nil, err
 	}
